@@ -9,6 +9,7 @@ import fcntl
 import glob
 import hashlib
 import json
+import re
 import os
 import shutil
 import subprocess
@@ -88,6 +89,7 @@ def _run_driver(workdir, cargo_args, target_dir, facts_dir, nonce, debug_asserti
     env["BSQ_FACTS_CRATES"] = crates
     env["CARGO_TARGET_DIR"] = target_dir
     env["CARGO_NET_OFFLINE"] = "true"
+    env["CARGO_INCREMENTAL"] = "0"      # scratch copies would each leave an incremental cache behind
     env.pop("RUSTC_WRAPPER", None)
     # force the wrapper to run for workspace members: drop their fingerprints
     fp = os.path.join(target_dir, "debug", ".fingerprint")
@@ -211,12 +213,22 @@ class Facts:
             with open(f) as fh:
                 text = fh.read()
             d = json.loads(text)
+            if d.get("crate") == "bio_seq" and re.search(r'"aty": ?"(i8|i16|i32|i64|i128|isize)"', text) and any(
+                    re.search(r'"aty": ?"(i8|i16|i32|i64|i128|isize)"', json.dumps(b)) for b in d["bodies"]
+                    if not (b.get("impl") or {}).get("derived") and not b.get("exp")):
+                # the integer normal forms treat every atom as unsigned (nf.cmp_canon, nf.entails): true of the pinned crate, which
+                # has no signed arithmetic at all; a tree that introduces some loses the unsigned-only identities
+                import nf
+                nf.SIGNED_SEEN = True
             # items that moved between modules are given back their frozen names (rules/canon.py)
             fkey = "all" if any("translation" in x for x in d.get("features", [])) else "def"
             ren = canon.compute_renames(d.get("names", []), (canon.frozen().get(d["crate"]) or {}).get(fkey)) if not os.environ.get("BSQ_NO_CANON") else {}
             if ren:
                 d = json.loads(canon.rewrite(text, ren))
                 self.renames.update({d["crate"] + "::" + k: v for k, v in ren.items()})
+            if not os.environ.get("BSQ_NO_CANON"):
+                gren = canon.canon_generics(d, ((canon.frozen().get(d["crate"]) or {}).get(fkey) or {}).get("generics"))
+                self.renames.update({d["crate"] + "::generics of " + k: v for k, v in gren.items()})
             kind = os.path.basename(f).split(".")[1]
             # the proc-macro crate may be compiled twice (host/target); keep one
             self.crates[d["crate"]] = Crate(d)
